@@ -120,14 +120,20 @@ TRAV_NONE = F + 'traverse_until_choice_nodes@none'
 # closure facts a caller gets from the traversal contract with T0 = start nodes (its N-shape / closed / least clauses)
 CONTRACTS.update({
     F + 'get_non_confirmed_nodes': dict(
-        properties=['C02'],
+        properties=['C02', 'C17'],
         types={'graph': 'Ref[NxGraph]', 'start_nodes': 'Set[Ref]'},
         returns='Set[Ref]',
         ghost={'S': 'Set[Ref]'},
         defs={'E': (('u', 'v'), E)},
         calls={'traverse_until_choice_nodes': TRAV_NONE},
+        locals={'confirmed_nodes': 'Set[Ref]'},
+        post_locals=['confirmed_nodes'],
         ensures={
             'complement-of-confirmed': ('property', f"forall('x:Ref', implies(x in result, x in graph.nodes and not (x in start_nodes)))"),
+            # exactly the nodes of the graph that the confirmed-node traversal did not reach: nothing confirmed is
+            # reported (DSG.get_confirmed_graph / the permanent nodes of C17 rest on this), nothing unconfirmed is kept
+            'exactly-the-unreached-nodes': ('property', "forall('x:Ref', (x in result) == (x in graph.nodes and not (x in final_confirmed_nodes)))"),
+            'reached-are-the-closure': ('carrier', f"implies(subset(start_nodes, S) and {CLOSED_S}, subset(final_confirmed_nodes, S))"),
             'confirmed-kept': ('property', f"implies(subset(start_nodes, S) and {CLOSED_S}, forall('x:Ref', implies(x in graph.nodes and not (x in S), x in result)))"),
         },
         modifies=[],
@@ -360,3 +366,17 @@ def _domain_remove_incompat(n):
 
 
 DOMAIN[I + 'get_mod_nodes_remove_incompatibilities@confirmed-pairs'] = _domain_remove_incompat
+
+
+def _domain_non_confirmed(n):
+    from adsg_core.graph.traversal import get_non_confirmed_nodes, traverse_until_choice_nodes
+    for env, call, uni, desc in _domain_traverse(n):
+        g, start = env['graph'], env['start_nodes']
+        env = dict(env)
+        # the local `confirmed_nodes` as a separate real call of the callee yields it
+        env['final_confirmed_nodes'] = traverse_until_choice_nodes(g, set(start))[0]
+        yield (env, (lambda g=g, start=start: get_non_confirmed_nodes(g, set(start))), uni,
+               desc.replace('traverse_until_choice_nodes(', 'get_non_confirmed_nodes('))
+
+
+DOMAIN[F + 'get_non_confirmed_nodes'] = _domain_non_confirmed
